@@ -125,6 +125,12 @@ def plan(ctx):
     return units
 
 
+def unit_cost(unit):
+    c = unit[0]
+    p = c['params']
+    return len(c['W']) * 3 + 4 * p.get('iters', p.get('maxswap', p.get('itr', 0))) + (6 if c['fn'].startswith('latmio') else 0)
+
+
 def degs(M):
     S = (np.asarray(M) != 0)
     return S.sum(axis=0), S.sum(axis=1)
